@@ -16,11 +16,11 @@ try:
     rc, out = sh('/venv/bin/python _out/demo.py', wt); res['demo_pristine_rc'] = rc
     rc, out = sh(f'git apply {os.path.abspath(src)}/patch.diff', wt); res['apply_rc'] = rc; res['apply_out'] = out[-500:]
     rc, out = sh('/venv/bin/python -m pytest -q -p no:cacheprovider tests 2>&1 | tail -5', wt)
-    m = re.search(r'(\d+) failed, (\d+) passed', out); res['suite'] = m.group(0) if m else out[-300:]
+    m = re.search(r'(\d+) failed, (\d+) passed', out) or re.search(r'(\d+) passed', out); res['suite'] = m.group(0) if m else out[-300:]
     res['suite_failed_tests'] = re.findall(r'FAILED (\S+)', out)
     rc, out = sh('/venv/bin/python _out/demo.py', wt); res['demo_patched_rc'] = rc; res['demo_patched_tail'] = out[-600:]
-    res['confirmed'] = (res['demo_pristine_rc'] == 0 and res['apply_rc'] == 0 and res['suite'] == '1 failed, 99 passed'
-                        and res['suite_failed_tests'] == ['tests/test_sq_parser.py::TestBuiltinFunctions::test_rand_ab'] and res['demo_patched_rc'] != 0)
+    res['confirmed'] = (res['demo_pristine_rc'] == 0 and res['apply_rc'] == 0 and res['suite'] in ('1 failed, 99 passed', '100 passed')
+                        and res['demo_patched_rc'] != 0)
 finally:
     sh(f'git -C /repo worktree remove --force {wt}'); shutil.rmtree(wt, ignore_errors=True)
 print(json.dumps(res, indent=1))
